@@ -275,9 +275,30 @@ func (g *Gen) applyContract(ce *callee, pos token.Pos) []string {
 	return results
 }
 
+func blockReaches(a, b *ssa.BasicBlock) bool {
+	seen := map[*ssa.BasicBlock]bool{}
+	work := []*ssa.BasicBlock{a}
+	for len(work) > 0 {
+		c := work[len(work)-1]
+		work = work[:len(work)-1]
+		if c == b {
+			return true
+		}
+		if seen[c] {
+			continue
+		}
+		seen[c] = true
+		work = append(work, c.Succs...)
+	}
+	return false
+}
+
 func (g *Gen) runDefers(x *ssa.RunDefers) {
 	for i := len(g.defers) - 1; i >= 0; i-- {
 		d := g.defers[i]
+		if !d.Block().Dominates(x.Block()) && !blockReaches(d.Block(), x.Block()) {
+			continue // this return is not reachable from the defer statement: it never ran
+		}
 		if !d.Block().Dominates(x.Block()) {
 			// conditional / repeated defer: over-approximate by its frame only
 			ce := g.resolveCallee(&d.Call)
@@ -463,6 +484,7 @@ func (g *Gen) lookup(x *ssa.Lookup) {
 		return
 	}
 	m, k := g.val(x.X), g.val(x.Index)
+	g.mapGuard(x.X, false, x.Pos())
 	ks, vs := g.L.CellSort(mt.Key()), g.L.CellSort(mt.Elem())
 	if isComposite(mt.Elem()) {
 		g.unsupported("map with composite values")
@@ -487,6 +509,7 @@ func (g *Gen) mapUpdate(x *ssa.MapUpdate) {
 	m, k, v := g.val(x.Map), g.val(x.Key), g.val(x.Value)
 	ks, vs := g.L.CellSort(mt.Key()), g.L.CellSort(mt.Elem())
 	g.oblige("nilmap", "", x.Pos(), g.nonNil(m))
+	g.mapGuard(x.Map, true, x.Pos())
 	if !g.assignAll {
 		alts := []string{app(">", pObj(m), "alloc@0")}
 		for _, r := range g.fnAssigns {
@@ -525,10 +548,12 @@ func (g *Gen) rangeInstr(x *ssa.Range) {
 	if !ok {
 		g.unsupported("range over %v", x.X.Type())
 	}
+	g.mapGuard(x.X, false, x.Pos())
 	ks := g.L.CellSort(mt.Key())
 	o := g.newObject(g.cur)
 	vis := g.mapVis(g.cur, ks)
 	g.setRawHeap(g.cur, g.visName(ks), app("store", vis, o, fmt.Sprintf("((as const (Array %s Bool)) false)", ks)))
+	g.setRawHeap(g.cur, "M_nvis", app("store", g.rawHeap(g.cur, "M_nvis", "(Array Int Int)"), o, "0"))
 	n := g.declare(g.valName(x), "Ptr")
 	g.assume(sEq(n, g.mkptr(o, g.M.IxLit(0))))
 }
@@ -554,7 +579,39 @@ func (g *Gen) nextInstr(x *ssa.Next) {
 	g.assume(sEq(v, app("select", app("select", g.mapVal(g.cur, ks, vs), pObj(m)), k)))
 	g.assumePC(g.wellFormed(v, mt.Elem(), g.cur.Alloc))
 	g.setRawHeap(g.cur, g.visName(ks), sIte(okc, app("store", vis, pObj(it), app("store", visIt, k, "true")), vis))
+	// number of keys produced so far: an iteration over a map that is not modified meanwhile produces every key exactly
+	// once, so the count stays below the cardinality while keys remain and equals it at the end
+	nv := g.rawHeap(g.cur, "M_nvis", "(Array Int Int)")
+	cnt := app("select", nv, pObj(it))
+	if !g.fnWritesMapOfType(mt) {
+		card := app("select", g.mapCard(g.cur), pObj(m))
+		g.assumePC(app("<=", "0", cnt))
+		g.assumePC(sImp(okc, app("<", cnt, card)))
+		g.assumePC(sImp(sAnd(sNot(okc), g.nonNil(m)), sEq(cnt, card)))
+		g.assumePC(sImp(sNot(g.nonNil(m)), sEq(cnt, "0")))
+	}
+	g.setRawHeap(g.cur, "M_nvis", sIte(okc, app("store", nv, pObj(it), app("+", cnt, "1")), nv))
 	g.tupleVals[x] = []string{okc, k, v}
+}
+
+// fnWritesMapOfType: the function under verification updates or deletes from some map of type mt (or calls something
+// that may): then nothing is assumed about how many keys a range over such a map produces.
+func (g *Gen) fnWritesMapOfType(mt *types.Map) bool {
+	for _, b := range g.fn.Blocks {
+		for _, in := range b.Instrs {
+			switch in := in.(type) {
+			case *ssa.MapUpdate:
+				if types.Identical(in.Map.Type().Underlying(), mt) {
+					return true
+				}
+			case ssa.CallInstruction:
+				if g.callTouchesMaps(in) {
+					return true
+				}
+			}
+		}
+	}
+	return false
 }
 
 // ---------- loop effect of calls ----------
@@ -770,6 +827,9 @@ func (g *Gen) dispatchRefine(ce *callee, pre, post *State, results []string, pos
 				spec := g.DB.Funcs[FuncKey(fn)]
 				if spec == nil || len(fn.Params) != len(c.Args)+1 {
 					continue
+				}
+				if spec.Mode.BV != g.M.BV {
+					continue // a contract written for the other integer model cannot be evaluated here: the interface-level contract stands alone
 				}
 				if _, isPtr := T.(*types.Pointer); !isPtr {
 					continue // value receivers live in a box: not needed for the module's key and hasher types
